@@ -12,6 +12,10 @@ from adcgen.sympy_objects import KroneckerDelta
 
 from .. import adapter, build
 from ..runner import guarded
+from functools import partial
+
+# derivations are long single calls: their own time limit
+guarded = partial(guarded, call_timeout=900)      # DERIVATION
 
 
 def perm_sign(p):
@@ -63,27 +67,31 @@ def run(chk):
                (0, "ph,pphh", "ia,jkbc"),
                (1, "ph,pphh", "ia,jkbc"), (2, "ph,pphh", "ia,jkbc"),
                (0, "pphh,pphh", "ijab,klcd"), (1, "pphh,pphh", "ijab,klcd"),
-               (1, "pphh,ph", "ijab,kc")],
+               (1, "pphh,ph", "ijab,kc"), (2, "pphh,ph", "ijab,kc")],
+        # first-order singles switched on: generic t1 singles amplitudes
+        "pp+s": [(1, "ph,ph", "ia,jb"), (2, "ph,ph", "ia,jb"),
+                 (1, "pphh,ph", "ijab,kc"), (1, "ph,pphh", "ia,jkbc")],
         "ip": [(0, "h,h", "i,j"), (1, "h,h", "i,j"), (2, "h,h", "i,j"),
                (3, "h,h", "i,j"), (4, "h,h", "i,j"), (1, "h,phh", "i,jka"),
-               (2, "h,phh", "i,jka"),
+               (2, "h,phh", "i,jka"), (2, "phh,h", "ija,k"),
                (0, "phh,phh", "ija,klb"), (1, "phh,phh", "ija,klb")],
         "ea": [(0, "p,p", "a,b"), (1, "p,p", "a,b"), (2, "p,p", "a,b"),
-               (3, "p,p", "a,b"), (2, "p,pph", "a,ibc"),
+               (3, "p,p", "a,b"), (2, "p,pph", "a,ibc"), (2, "pph,p", "iab,c"),
                (0, "pph,pph", "iab,jcd")],
     }
     if not quick:
-        reqs["pp"] += [(2, "pphh,ph", "ijab,kc"),
-                       (2, "pphh,pphh", "ijab,klcd")]
-        reqs["ip"] += [(2, "phh,phh", "ija,klb"),
-                       (2, "phh,h", "ija,k")]
+        reqs["pp"] += [(2, "pphh,pphh", "ijab,klcd")]
+        reqs["pp+s"] += [(2, "pphh,ph", "ijab,kc"), (2, "ph,pphh", "ia,jkbc")]
+        reqs["ip"] += [(2, "phh,phh", "ija,klb")]
         reqs["ea"] += [(4, "p,p", "a,b"), (1, "pph,pph", "iab,jcd"),
                        (2, "pph,pph", "iab,jcd")]
         reqs["dip"] = [(0, "hh,hh", "ij,kl"), (1, "hh,hh", "ij,kl"),
                        (2, "hh,hh", "ij,kl")]
         reqs["dea"] = [(0, "pp,pp", "ab,cd"), (2, "pp,pp", "ab,cd")]
+    gs_s = GroundState(Operators("mp"), first_order_singles=True)
     for variant, lst in reqs.items():
-        isr = IntermediateStates(gs, variant)
+        isr = IntermediateStates(gs_s, "pp") if variant == "pp+s" else \
+            IntermediateStates(gs, variant)
         for (order, block, indices) in lst:
             what = f"IntermediateStates({variant}).overlap_isr({order}, '{block}', '{indices}')"
             res, exc = guarded(isr.overlap_isr, order, block, indices)
